@@ -156,11 +156,13 @@ def allocFri (e : Env) (f : FriShape) : List Check :=
 
 /-! ## MMCS cap handling (`verify_batch_circuit*`) -/
 
-/-- `assert!(!cap.is_empty())`, `log2_strict_usize(cap.len())`, `index_bits.len() - cap_height`. -/
+/-- `assert!(!cap.is_empty())`, `log2_strict_usize(cap.len())`; fix C08-4 (bd209ac): a cap taller
+than the index (`cap_height > index_bits.len()`) is an explicit `InvalidDimension` error before
+`index_bits.len() - cap_height` is computed. -/
 def capChecks (cap bits : Nat) : List Check :=
   [ partialStep (cap != 0),
     partialStep (isPow2 cap),
-    partialStep (log2 cap ≤ bits) ]
+    must (log2 cap ≤ bits) ]
 
 /-! ## FRI (`get_challenges_circuit`, `verify_circuit`, `verify_fri_circuit`, `open_input`) -/
 
@@ -185,6 +187,12 @@ def openInputChecks (e : Env) (f : FriShape) (rounds : List Round) (q : QuerySha
           -- `log_global_max_height.checked_sub(batch_log_max_height)`; the batch is opened with the
           -- upper `batch_log_max_height` index bits only
           [ must (batchHeight e r ≤ lmh), must (r.mats.length == b.length) ]
+          -- fix C08-2 (1fb42a4): each opened row is pinned to the matrix width, which `open_input`
+          -- sets to the number of evaluations claimed at the first opening point
+          ++ ((r.mats.zip b).map fun (m, row) => must (match m.2 with | [] => true | v :: _ => v == row))
+          -- fix C08-3 (ca4e1d9): an empty batch is `EmptyBatch`; LDE heights are powers of two, so
+          -- the ladder condition itself always holds here
+          ++ [ must (r.mats.length != 0) ]
           ++ capChecks r.cap (batchHeight e r)
         else [])
         ++ [ must (r.mats.length == b.length) ]
